@@ -39,6 +39,10 @@ fn probe_bound(row: usize) -> u64 {
 fn bits_bound(row: usize) -> u64 {
     probe_bound(row) + 1
 }
+/// bound of the zero-width bits entry of row r
+fn zero_bound(row: usize) -> u64 {
+    2_000_003 + 2 * row as u64
+}
 const VIRTUAL_BOUND: u64 = 999_983;
 
 /// bound of the two rows planted around an unconditional `resetRandom;` at the very top
@@ -64,12 +68,14 @@ struct Plan {
     while_probe: bool,
     /// the text starts with `loop(rz, 2)` / `resetRandom;` / row showing random(RESET_BOUND)
     loop_reset: Option<usize>,
+    /// rows that carry `bits(0, random(Z_r))` in front
+    zero_probe: Vec<usize>,
 }
 
 /// Add the probe inputs RP0 (64 bit) and RB0, RB1 (1 bit each) in front of the header; rows
 /// that carry a random probe lose their X / C entries, so that one evaluation is one item.
 fn plant(b: &mut Built, ch: &mut Ch) -> Plan {
-    let mut plan = Plan { reset_pair: None, value_probe: vec![], bits_probe: vec![], virtual_probe: false, empty_loop: false, while_probe: false, loop_reset: None };
+    let mut plan = Plan { reset_pair: None, value_probe: vec![], bits_probe: vec![], virtual_probe: false, empty_loop: false, while_probe: false, loop_reset: None, zero_probe: vec![] };
     for (k, (n, bits)) in [("RP0", 64usize), ("RB0", 1), ("RB1", 1)].iter().enumerate() {
         b.sigs.insert(k, Sig { name: n.to_string(), bits: *bits, kind: Kind::In(InVal::Val(0)) });
         b.prog.header.insert(k, n.to_string());
@@ -107,6 +113,12 @@ fn plant(b: &mut Built, ch: &mut Ch) -> Plan {
                         plan.value_probe.push(*id);
                     } else {
                         es.insert(0, Entry::Num(0, Radix::Dec));
+                    }
+                    // a bits entry of width 0 fills no column; its expression is evaluated all the
+                    // same, once per evaluation of the row
+                    if ch.chance(1, 6) {
+                        es.insert(0, Entry::Bits(0, Expr::Random(Box::new(Expr::lit(zero_bound(*id))))));
+                        plan.zero_probe.push(*id);
                     }
                 }
                 Stmt::Loop(_, _, inner) | Stmt::While(_, inner) => go(inner, ch, plan, cols),
@@ -185,7 +197,7 @@ impl Property for C17 {
         "C17"
     }
     fn rule(&self) -> &'static str {
-        "profile `random`: flow programs with random(e) in row entries, let, bounds, ite conditions and branches, nested in its own argument, in a virtual signal; bounds >= 2 by construction (2, small, (e&7)+2, 2^k up to 2^62); resetRandom at any statement position; seeds {0, 1, u64::MAX, random} forced through the seed hook; planted probes: `(random(B_r))` in a 64-bit input and `bits(2, random(B_r+1))` in two 1-bit inputs with a bound unique to the source row r (half of such rows keep their X/C entries: the g items of one evaluation then all show the one value drawn for it), `declare VR = random(999983)`, a `row / resetRandom; / row` triple with random(500009) at the top (or instead, as the very first statements of the text, `loop(rz, 2)` / `resetRandom;` / such a row / `end loop`, where no `random` stands before the `resetRandom;` in the text: both passes show the same value), a body-less `loop(ez, (random(700001) & 1))` as first statement (its bound is evaluated once on entry: exactly one draw with that bound), a `while` counting a variable down from 2 whose condition draws (evaluated for 2, 1, 0: exactly three draws), and random(7919) in unselected branches of constant-condition ite. Oracle (self-consistent, on the crate's own event log): every random evaluation is exactly one generator draw (GenDraw, Draw pairs), 0 <= value < bound; after every Reset the values repeat those drawn from the start of the run over the longest common prefix of the bound sequences; the same seed gives the same log; no draw with bound 7919 (lazy ite); for each probed row the number of draws with its bound equals the number of its evaluations (items / g, the last one possibly cut by the cap), and each item shows exactly the value drawn for its evaluation (resp. its two low bits): one draw per evaluation, used as if it were a literal; VR is drawn once per checked row and shows the drawn value; and a straight-line control program that performs the same sequence of random(bound) / resetRandom with the same seed draws exactly the same values (the draws are those of the run's generator, in order). In a third of the cases two or three iterators over the same test are alive at once and stepped alternately by a generated schedule (same seed, same script): each yields exactly the items of the run on its own (every run has its own generator). Non-trivial: >= 2 draws and (a reset followed by a draw, or a checked probe, or a lazy sentinel present); distinct by source + signals + driver + seed."
+        "profile `random`: flow programs with random(e) in row entries, let, bounds, ite conditions and branches, nested in its own argument, in a virtual signal; bounds >= 2 by construction (2, small, (e&7)+2, 2^k up to 2^62); resetRandom at any statement position; seeds {0, 1, u64::MAX, random} forced through the seed hook; planted probes: `(random(B_r))` in a 64-bit input and `bits(2, random(B_r+1))` in two 1-bit inputs with a bound unique to the source row r (half of such rows keep their X/C entries: the g items of one evaluation then all show the one value drawn for it), `bits(0, random(Z_r))` in front of one row in six (no column, still one draw per evaluation), `declare VR = random(999983)`, a `row / resetRandom; / row` triple with random(500009) at the top (or instead, as the very first statements of the text, `loop(rz, 2)` / `resetRandom;` / such a row / `end loop`, where no `random` stands before the `resetRandom;` in the text: both passes show the same value), a body-less `loop(ez, (random(700001) & 1))` as first statement (its bound is evaluated once on entry: exactly one draw with that bound), a `while` counting a variable down from 2 whose condition draws (evaluated for 2, 1, 0: exactly three draws), and random(7919) in unselected branches of constant-condition ite. Oracle (self-consistent, on the crate's own event log): every random evaluation is exactly one generator draw (GenDraw, Draw pairs), 0 <= value < bound; after every Reset the values repeat those drawn from the start of the run over the longest common prefix of the bound sequences; the same seed gives the same log; no draw with bound 7919 (lazy ite); for each probed row the number of draws with its bound equals the number of its evaluations (items / g, the last one possibly cut by the cap), and each item shows exactly the value drawn for its evaluation (resp. its two low bits): one draw per evaluation, used as if it were a literal; VR is drawn once per checked row and shows the drawn value; and a straight-line control program that performs the same sequence of random(bound) / resetRandom with the same seed draws exactly the same values (the draws are those of the run's generator, in order). In a third of the cases two or three iterators over the same test are alive at once and stepped alternately by a generated schedule (same seed, same script): each yields exactly the items of the run on its own (every run has its own generator). Non-trivial: >= 2 draws and (a reset followed by a draw, or a checked probe, or a lazy sentinel present); distinct by source + signals + driver + seed."
     }
     fn cases(&self, tier: Tier) -> u64 {
         match tier {
@@ -194,7 +206,7 @@ impl Property for C17 {
         }
     }
     fn required_classes(&self) -> Vec<&'static str> {
-        vec!["draws>=2", "reset-then-draw", "bound=2", "bound>=2^32", "virtual-probe-checked", "seed=0", "seed=max", "replayed-prefix>=2", "value-probe-checked", "bits-probe-checked", "lazy-sentinel-planted", "probe-in-loop", "control-program-compared", "planted-reset-checked", "empty-loop-bound-draw-checked", "while-condition-draws-checked", "interleaved-iterators-compared", "probe-in-expanded-row", "planted-reset-in-loop-checked"]
+        vec!["draws>=2", "reset-then-draw", "bound=2", "bound>=2^32", "virtual-probe-checked", "seed=0", "seed=max", "replayed-prefix>=2", "value-probe-checked", "bits-probe-checked", "lazy-sentinel-planted", "probe-in-loop", "control-program-compared", "planted-reset-checked", "empty-loop-bound-draw-checked", "while-condition-draws-checked", "interleaved-iterators-compared", "probe-in-expanded-row", "planted-reset-in-loop-checked", "zero-width-bits-probe-checked"]
     }
     fn run(&self, s: &Streams) -> CaseOut {
         let mut out = CaseOut::new();
@@ -426,6 +438,22 @@ impl Property for C17 {
                             drawn.len(),
                             drawn
                         ),
+                    );
+                    return out;
+                }
+            }
+            for rid in &plan.zero_probe {
+                let items_n = row_items.iter().filter(|r| tag_of(r) == Some(*rid)).count();
+                let draws_n = all.iter().filter(|(b, _)| *b == zero_bound(*rid) as i64).count();
+                let g = rows.get(rid).map(|i| i.group.max(1)).unwrap_or(1);
+                if items_n > 0 {
+                    out.class("zero-width-bits-probe-checked");
+                }
+                // evaluations = items / g, the last one possibly cut by the cap
+                if draws_n != items_n.div_ceil(g) {
+                    out.fail(
+                        "c17:zero-width-bits-draws",
+                        format!("source row #{rid} starts with bits(0, random({})): it yielded {items_n} items ({g} per evaluation), so {} draws with that bound are due (the expression is evaluated once per evaluation of the row, whatever the width); the log has {draws_n}", zero_bound(*rid), items_n.div_ceil(g)),
                     );
                     return out;
                 }
